@@ -16,11 +16,19 @@ def site_sample(F, s):
             "established": s.known[:6], "discharged": s.ok}
 
 
-def wrapper_sites(ctx, rr, fn_regex, callee, min_sites=1, label=None, props=None):
-    """All census sites of `callee` inside functions matching fn_regex must be discharged."""
+def wrapper_sites(ctx, rr, fn_regex, callee, min_sites=1, label=None, props=None, checked_alt=None):
+    """All census sites of `callee` inside functions matching fn_regex must be discharged. `checked_alt`: the checked
+    counterpart of the callee (`slice::get`); a function that reaches the data only through it has nothing to discharge."""
     F = ctx.F()
     S = [s for s in get_census(ctx) if path_matches(fn_regex, s.body.key) and s.cname == callee and not s.debug_only]
     fns = sorted(set(s.body.key for s in S))
+    if len(S) < min_sites and checked_alt:
+        alt = [(b, n) for b in F.find(fn_regex) for n in walk(b.body) if cname(F, n) == checked_alt]
+        if alt:
+            for b, n in alt:
+                rr.instances += 1
+                rr.ob(True, key="%s:%s:checked" % (short_fn(b.key), checked_alt.split("::")[-1]), nontrivial=False)
+            return S
     if len(S) < min_sites:
         raise AnchorMissing("no call of %s found in a safe function matching /%s/ (found %d sites, expected >= %d)" % (callee, fn_regex, len(S), min_sites))
     for s in S:
@@ -554,7 +562,7 @@ def r06_2(ctx, rr):
                r"^<bits::bit_vec::OnesIterator<'_, B> as std::iter::Iterator>::next$", r"^<bits::bit_vec::ZerosIterator<'_, B> as std::iter::Iterator>::next$",
                r"^dict::elias_fano::EliasFanoIterator::<'a, H, L>::new$"):
         # a constructor may also take its first word through a checked API (`first()`): then there is nothing to discharge
-        wrapper_sites(ctx, rr, fn, "slice::get_unchecked", min_sites=0 if fn.endswith("::new$") else 1)
+        wrapper_sites(ctx, rr, fn, "slice::get_unchecked", min_sites=0 if fn.endswith("::new$") else 1, checked_alt="slice::get")
     for fn in (r"^bits::bit_vec::BitVec::<B>::get$", r"^bits::bit_vec::AtomicBitVec::<B>::get$"):
         wrapper_sites(ctx, rr, fn, fn.split("::")[2].split("<")[0].replace("\\", "") + "::get_unchecked")
     wrapper_sites(ctx, rr, r"^bits::bit_vec::BitVec::<B>::set$", "BitVec::set_unchecked")
@@ -873,6 +881,7 @@ def r04_4(ctx, rr):
     loops = [n for n in walk(b.body) if n.get("k") == "Loop" and n.get("src") == "While"]
     ok = False
     found = []
+    pm = {id(n): ps for n, ps in walk_with_parents(b.body)}
     for lp in loops:
         ups = [(x["op"], show(F, x["l"]), show(F, x["r"])) for x in walk(lp["body"]) if x.get("k") == "AssignOp"]
         asg = [(show(F, x["l"]), show(F, x["r"])) for x in walk(lp["body"]) if x.get("k") == "Assign" and x["l"].get("k") == "Path"]
@@ -884,6 +893,27 @@ def r04_4(ctx, rr):
             plain = [a for a in asg if acc and a[0] == acc[0][1]]
             if len(steps_back) == 1 and len(acc) == 1 and not plain:
                 ok = True
+            # no accumulator at all: the position is computed after the scan from the stepped word index itself
+            # (`word_idx * BITS + index of the highest bit of the window`), which needs no bookkeeping in the loop
+            if len(steps_back) == 1 and not acc and len(ups) == 1:
+                sb = [x for x in walk(lp["body"]) if x.get("k") == "AssignOp" and x["op"] == "-="][0]
+                vid = sb["l"].get("id") if sb["l"].get("k") == "Path" else None
+                blk = [p for p in pm[id(lp)] if p.get("k") == "Block"]
+                after = False
+                for st in (blk[-1]["stmts"] + ([blk[-1]["expr"]] if "expr" in blk[-1] else [])) if blk else []:
+                    if any(x is lp for x in walk(st)):
+                        after = True
+                        continue
+                    if after and vid is not None:
+                        for x in walk(st):
+                            if x.get("k") == "Binary" and x["op"] in ("*", "<<"):
+                                sides = [x["l"], x["r"]]
+                                def strip(e):
+                                    while e.get("k") in ("Cast", "Paren"):
+                                        e = e["e"]
+                                    return e
+                                if any(strip(y).get("k") == "Path" and strip(y).get("id") == vid for y in sides) and (x["op"] == "<<" or any("BITS" in show(F, y) or show(F, y) in ("64",) for y in sides)):
+                                    ok = True
     rr.instances += 1
     rr.check(ok, "EliasFano::pred_unchecked:backward-scan-accumulates", "in the backward scan of pred_unchecked every step to the previous word (`word_idx -= 1`) must add BITS to the number of skipped positions (`zeros += BITS`): an assignment instead of an accumulation is right for one empty word only; found %s" % found[:2], b.span)
     # forward scans: the word cursor advances by one per refill of the window
